@@ -38,6 +38,15 @@ def jobs_for(shapes: list, seed: int) -> list:
             ts = [t for t in ts if "PIE" not in t]
         for k, site in enumerate(("AddChart", "ReplaceData")):
             jobs.append(("%d:%s" % (i, site), s, site, ts[(i + k + seed) % len(ts)], i + seed))
+    # the PowerPoint-authored charts of the corpus (supported plot families; the bar+line chart among them): replace_data with two shapes each
+    supported = {v[3] for v in CH.chart_types().values()}
+    bykind = {k: [s for s in shapes if s["kind"] == k and 1 <= len(s["series"]) <= 6 and not s.get("tod")] for k in ("cat", "xy", "bubble")}
+    for n, c in enumerate(c for c in CH.corpus_charts() if c[2] and all(k in supported for k in c[4])):
+        kind = "bubble" if c[2] == "bubbleChart" else "xy" if c[2] == "scatterChart" else "cat"
+        pool = [s for s in bykind[kind] if c[2] != "pieChart" or len(s["series"]) == 1]
+        for k in range(2):
+            s = pool[(n * 7 + k * 131 + seed) % len(pool)]
+            jobs.append(("c%d.%d:ReplaceData" % (n, k), s, "ReplaceData", "corpus:%s#%d" % (c[0], c[1]), n + seed))
     return jobs
 
 
@@ -194,7 +203,7 @@ def main() -> int:
           [r for r in nontrivial if len(r["obs"]["sers"][0]["cat"]["lvls"]) == 3][:1]
     cov = {"states": len(shapes) + len(cols), "transitions": tot.get("points", 0) + tot.get("cols", 0),
            "traces_validated_against_impl": len(recs) + len(cols), "exhaustive": True,
-           "domain": dom, "charts": len(recs), "charts_with_series": len(nontrivial), "cached_points_validated": tot.get("points", 0),
+           "domain": dom, "charts": len(recs), "corpus_charts_rewritten": sum(1 for r in recs if r["type"].startswith("corpus:")), "charts_with_series": len(nontrivial), "cached_points_validated": tot.get("points", 0),
            "columns_validated": tot.get("cols", 0), "rejected_charts": sum(1 for v in bad if v["kind"] == "chart"),
            "max_column_referenced": maxcol, "max_category_depth": maxdepth, "drift": tot.get("drift", 0),
            "spec_theorems_checked": ["T_ColLetters (bijection, inverse, odometer successor on 1..16384)", "T_Serial", "T_Shapes (disjoint ranges, "
